@@ -24,6 +24,7 @@ WIRE = {"ChunkWithPayment": 0, "Chunk": 1, "Transaction": 2, "Register": 3, "Reg
 
 def run(R):
     codec_rules(R)
+    derive_rules(R)
     F = R.F
     names = T.variant_names(F, KIND)
     ser = R.body("C12.tags", "<%s as serde::ser::Serialize>::serialize" % KIND)
@@ -207,3 +208,63 @@ def codec_rules(R):
     if n < 2:
         R.viol("C12.codec", "instance-floor", "only %d rmp_serde call sites found on the header path (floor 2)" % n)
     R.inst("C12.codec", "K1 forbidden-callee", "the record header is encoded and decoded with rmp_serde's default configuration", n, not odd and n >= 2)
+
+
+SER_ALLOWED = ("core::ops::try_trait::Try>::branch", "core::ops::try_trait::FromResidual", "serde::ser::SerializeStruct::serialize_field", "serde::ser::SerializeStruct::end",
+               "serde::ser::SerializeStructVariant::serialize_field", "serde::ser::SerializeStructVariant::end", "serde::ser::SerializeTupleStruct::serialize_field",
+               "serde::ser::SerializeTupleStruct::end", "serde::ser::SerializeTupleVariant::serialize_field", "serde::ser::SerializeTupleVariant::end",
+               "serde::ser::SerializeTuple::serialize_element", "serde::ser::SerializeTuple::end", "serde::ser::Serializer::serialize_")
+WORKSPACE = ("ant_", "evmlib::", "autonomi::", "antnode::", "antctl::")
+
+
+def derive_rules(R):
+    """The derive-generated codecs of the record payload types (and everything else in the protocol / payment / register crates) are
+    the plain field-by-field ones: no field is skipped, defaulted or routed through a custom `with` module on one side, and no two
+    variants of an enum share a wire name.  (Such attributes change what is written or what is accepted on one side only, so a
+    value no longer decodes to an equal value.)"""
+    F = R.F
+    n, bad = 0, []
+    for p_, b in F.bodies.items():
+        if b.crate not in ("ant_protocol", "ant_evm", "ant_registers") or b.mac not in ("Serialize", "Deserialize"):
+            continue
+        n += 1
+        for c in b.calls:
+            nc = c["ncallee"] or c.get("ngen") or ""
+            if b.mac == "Serialize":
+                if not any(a in nc for a in SER_ALLOWED):
+                    bad.append((b, c, "the derived Serialize impl calls %s" % nc))
+            else:
+                free_ws = nc.startswith(WORKSPACE) and not nc.startswith("<")
+                if free_ws or nc.endswith("core::default::Default>::default") or nc == "core::default::Default::default":
+                    bad.append((b, c, "the derived Deserialize impl calls %s" % nc))
+    seen = set()
+    for b, c, why in bad:
+        key = (R.root_path(b), why)
+        if key in seen:
+            continue
+        seen.add(key)
+        R.viol("C12.derive.plain", "custom-field-codec:%s" % R.root_path(b).split(" as ")[0].lstrip("<").split("::")[-1],
+               "%s: %s (a skipped / defaulted / custom-encoded field: the two directions no longer agree field by field)" % (R.root_path(b), why), b, c["line"])
+    if n < 40:
+        R.viol("C12.derive.plain", "instance-floor", "only %d derive-generated serde bodies found (floor 40)" % n)
+    R.inst("C12.derive.plain", "K1 forbidden-callee", "derive-generated Serialize/Deserialize impls are plain field-by-field codecs", n, not bad and n >= 40)
+    # unique wire names per enum
+    dup, ne = [], 0
+    for p_, b in F.bodies.items():
+        if b.crate not in ("ant_protocol", "ant_evm", "ant_registers") or b.mac != "Serialize":
+            continue
+        names = []
+        for c in b.calls:
+            nc = c["ncallee"] or c.get("ngen") or ""
+            if nc.endswith(("serialize_unit_variant", "serialize_newtype_variant", "serialize_struct_variant", "serialize_tuple_variant")):
+                ks = [k[1] for k in (c.get("consts") or []) if isinstance(k[1], str) and k[1].startswith('"')]
+                if len(ks) >= 2:
+                    names.append(ks[1])
+        if names:
+            ne += 1
+            d = sorted({x for x in names if names.count(x) > 1})
+            if d:
+                dup.append((b, d))
+    for b, d in dup:
+        R.viol("C12.derive.names", "duplicate-variant-name:%s" % R.root_path(b).split(" as ")[0].lstrip("<").split("::")[-1], "%s writes two variants under the same wire name %s" % (R.root_path(b), d), b, b.lines[0])
+    R.inst("C12.derive.names", "K7 table agreement", "no enum writes two variants under one wire name", ne, not dup)
